@@ -1072,6 +1072,21 @@ class Walker:
                     bb = t['otherwise']
                     continue
                 targets = [(signed(v, ty), b) for v, b in t['targets']]
+                if ty == 'bool':
+                    # one canonical form for a tested condition: `a != b` is recorded as Eq(a, b) with the opposite truth value,
+                    # `!x` as x with the opposite truth value (so that rules need not know both spellings)
+                    flip = False
+                    while True:
+                        if on[0] == 'un' and on[1] == 'Not':
+                            on, flip = on[2], not flip
+                        elif on[0] == 'bin' and on[1] == 'Ne':
+                            on, flip = simp(('bin', 'Eq', on[2], on[3])), not flip
+                        else:
+                            break
+                    if flip:
+                        tv = {v: b for v, b in targets}
+                        full = {v: tv.get(v, t['otherwise']) for v in (0, 1)}
+                        targets = [(1 - v, b) for v, b in sorted(full.items())]
                 if is_const(on) and isinstance(on[1], int):
                     nxt = t['otherwise']
                     for v, b in targets:
